@@ -37,6 +37,7 @@ REVIEWED = {
     "cfsqp_fptr": ("entry point of the optional CFSQP plug-in, resolved once when the plug-in is loaded; optimisation only", None),
     "inPipe": ("Visualizer listener pipe descriptor; the visualizer is not part of simulation", None),
     "@cmaes.c": ("c-cmaes string buffers and print/write lock flags of its text-output helpers; CMA-ES optimiser only, they format messages and file output", None),
+    "c_b6": ("f2c constant 1e-15 of gcvspl.cpp, passed by address as splc_'s `eps` argument which is only read", "param_not_written"),
     "@fnvector_serial.c": ("sundials Fortran-binding globals, written only by the FNV* Fortran entry points which nothing in the library calls", "fortran_glue_uncalled"),
 }
 NONMUTATING = {"find", "end", "begin", "size", "empty", "count", "at", "lower_bound", "upper_bound", "c_str", "data", "load"}
@@ -224,9 +225,35 @@ def no_library_caller(P, s, ws):
 
 
 def setter_uncalled(P, s, ws):
+    """written only by its setter; the setter is reachable only through public static API forwards that no library function calls"""
     wf = set(f.name for f, e in ws)
-    callers = [f.name for f in P.all_fns() for _, _, e in f.calls() if e.get("fn") in wf]
-    return not callers, "written by %s, called from %s" % (sorted(wf), callers[:3])
+    level1 = set(f.name for f in P.all_fns() for _, _, e in f.calls() if e.get("fn") in wf and f.name not in wf)
+    level2 = set(f.name for f in P.all_fns() for _, _, e in f.calls() if e.get("fn") in level1 and f.name not in level1)
+    return not level2, "written by %s; forwarded by %s; those are called from %s" % (sorted(wf), sorted(level1), sorted(level2)[:3])
+
+
+def param_not_written(P, s, ws):
+    """every use is `&var` passed to a callee parameter through which the callee never writes"""
+    bad = []
+    for fn, e in ws:
+        if e["acc"] != "addr":
+            bad.append("%s:%s" % (fn.name, e["acc"]))
+            continue
+        # find the calls that receive &var and the parameter position
+        for b, i, c in fn.calls():
+            args = call_args(c)
+            for pos, a in enumerate(args):
+                if a == ["un", "&", ["gvar", s["name"]]]:
+                    cal = P.fns_named(c.get("fn", ""))
+                    if not cal:
+                        bad.append("callee %s not analysed" % c.get("fn"))
+                        continue
+                    pname = cal[0].d["params"][pos][0]
+                    wr = [w for _, _, w in cal[0].events(lambda w: bool(ev_write(w)) and var_of(ev_write(w)[0]) == pname and ev_write(w)[0] != ["var", pname])]
+                    passed_on = [q for _, _, q in cal[0].calls() if any(x == ["var", pname] for x in call_args(q))]
+                    if wr:
+                        bad.append("%s writes *%s" % (cal[0].name, pname))
+    return not bad, "uses: %d address-of arguments; problems: %s" % (len(ws), bad[:3])
 
 
 def fortran_glue_uncalled(P, s, ws):
@@ -237,7 +264,8 @@ def fortran_glue_uncalled(P, s, ws):
 
 SIDE = dict(only_random_ctor=only_random_ctor, stateless_algorithms=stateless_algorithms, is_atomic=is_atomic,
             scratch_out_arg_first=scratch_out_arg_first, no_library_writer=no_library_writer, only_set_true=only_set_true,
-            no_library_caller=no_library_caller, setter_uncalled=setter_uncalled, fortran_glue_uncalled=fortran_glue_uncalled)
+            no_library_caller=no_library_caller, setter_uncalled=setter_uncalled, fortran_glue_uncalled=fortran_glue_uncalled,
+            param_not_written=param_not_written)
 
 _CD = "SimTKmath/Geometry/src/CollisionDetectionAlgorithm.cpp"
 _AI = "SimTKmath/Integrators/src/AbstractIntegratorRep.cpp"
